@@ -95,8 +95,6 @@ def classify(kind, detail=""):
         return "trso.activate-empty-children"
     if kind in ("vocabulary", "value") and FACTS.get("sums_transport_node"):
         return "trso.line9-sums-transport-node"
-    if kind == "value" and FACTS.get("line10_in_source_domain"):
-        return "trso.line10-inside-source-domain"
     return None
 
 
